@@ -880,12 +880,11 @@ documents define that the library cannot read or represent, and things the libra
 document does not define them (the `Valid*` predicates do not exclude them, and for them `Cql.Spec` extrapolates
 the layout of the first document that has the item). -/
 
--- SUSPECT: (decoder, v2) `native_protocol_v2.spec` §4.2.5.2 lists option id "0x000A    Text". `ReadDataType` has no
--- `case DataTypeCodeText` (datatype/datatype.go; constants.go says "removed in v3, alias for DataTypeCodeVarchar"),
--- so a specification-formatted v2 Rows / Prepared result with a `text` column is refused ("unknown type code"),
--- although `WriteDataType` does write the id. `DataType.Wf` excludes the id, which is why `decodeResult_spec` holds.
+-- FIXED in /repo 617fb97 (was a SUSPECT): `native_protocol_v2.spec` §4.2.5.2 lists option id "0x000A    Text"; `ReadDataType`
+-- had no `case DataTypeCodeText`, so a specification-formatted v2 Rows / Prepared result with a `text` column was refused.
+-- It is now read as varchar (constants.go: "alias for DataTypeCodeVarchar").
 example : Spec.nativeIdDefined 2 0x000A = true := by decide
-example : (DataType.read 2).run [0x00, 0x0A] = .err "unknown type code" := rfl
+example : (DataType.read 2).run [0x00, 0x0A] = .ok (.prim 0x000D, []) := rfl
 example : DataType.write 2 (.prim 0x000A) = .ok [0x00, 0x0A] := by decide
 
 -- SUSPECT: (v5 / DSE error codes) `native_protocol_v5.spec` §8 defines "0x1600    CDC_WRITE_FAILURE" and
